@@ -7,6 +7,10 @@
 // validators silent, differing mempools) followed by the fair schedule. ops.txt carries the
 // trace for the Lean driver (which checks every step is enabled in the protocol model),
 // oracle.txt the failures of the property's oracles on the real run.
+//
+// Cases 0..4 are the scripted corpus (script.go), cases 5..7 the epoch cases (epoch.go: seven nodes,
+// the validator set changes at epoch boundaries by ValidatorsHistory and by votes; tied to
+// Model/DbftEpoch.lean), the random profiles start at case 8.
 package main
 
 import (
@@ -100,6 +104,24 @@ func main() {
 			opts.maxBlockSize = uint32(base + 2*txSize + txSize/2 + r.Intn(2*txSize))
 			opts.maxTxPerBlock = 8
 		}
+		var ep *epochSpec
+		if sc == nil && k < len(corpus)+len(epochCorpus) {
+			spec := epochCorpus[k-len(corpus)]
+			if spec.random {
+				a := 4 + r.Intn(4)
+				b := 4 + r.Intn(4)
+				for b == a {
+					b = 4 + r.Intn(4)
+				}
+				spec.history = map[uint32]uint32{0: uint32(a), 7: uint32(b), 14: uint32(4 + r.Intn(4)), 21: uint32(4 + r.Intn(4))}
+			}
+			ep = &spec
+			nv = epochFirst(ep)
+			pf = profile{name: ep.name}
+			opts = clusterOpts{n: epochFirst(ep), extraCommittee: epochCommittee - epochFirst(ep), allNodes: true, valHistory: ep.history, verbose: verbose,
+				maxTxPerBlock: 20, memPoolSize: 50, stateRoot: k%2 == 0, maxBlockSysFee: 900000000000}
+			limits = "default"
+		}
 		if sc != nil {
 			opts = clusterOpts{n: nv, verbose: verbose, maxTxPerBlock: 6, memPoolSize: 50}
 			limits = "default"
@@ -116,7 +138,9 @@ func main() {
 			txs: map[util.Uint256]*transaction.Transaction{}, committed: map[uint32]*block.Block{}, maxTx: int(opts.maxTxPerBlock),
 			commitAt: map[uint32]map[int]byte{}, hadAsync: pf.steps > 0, tn: &txNames{n: map[util.Uint256]int{}}}
 		// init n tpb maxTx maxSize maxSysFee sr baseV baseP gts
-		{
+		if ep != nil {
+			run.runEpoch(*ep)
+		} else {
 			bc := cl.nodes[0].bc
 			cfg := bc.GetConfig()
 			gen, _ := bc.GetBlock(bc.GetHeaderHash(0))
@@ -127,6 +151,9 @@ func main() {
 				cfg.MaxBlockSize, cfg.MaxBlockSystemFee, b2i(opts.stateRoot), baseV, baseP, gen.Timestamp))
 		}
 		for _, nd := range cl.nodes {
+			if ep != nil {
+				break
+			}
 			run.pre(nd)
 			run.line(fmt.Sprintf("start %d", nd.idx))
 			if err := nd.start(); err != nil {
@@ -137,7 +164,7 @@ func main() {
 		}
 		run.tight = limits != "default"
 		// some transactions to start with
-		for i := r.Intn(4) + 2*b2i(run.tight); i > 0 && sc == nil; i-- {
+		for i := r.Intn(4) + 2*b2i(run.tight); i > 0 && sc == nil && ep == nil; i-- {
 			var to []int
 			for j := range cl.nodes {
 				if r.Chance(3, 4) {
@@ -146,7 +173,9 @@ func main() {
 			}
 			run.injectTx(to)
 		}
-		if sc != nil {
+		if ep != nil {
+			// runEpoch has done everything
+		} else if sc != nil {
 			run.hadAsync = true
 			run.quiet = true
 			run.runScript(*sc)
@@ -156,7 +185,7 @@ func main() {
 				run.fair(pf.fairBlocks)
 			}
 		}
-		if run.ok() {
+		if run.ok() && ep == nil {
 			run.final()
 		}
 		_, hi := run.heights()
